@@ -482,6 +482,11 @@ class VirtualOperator(abc.ABC):
         # build operator
         if not (order1 or order2):
             return self.OPERATOR(*args, **kwargs)
+        if issubclass(self.OPERATOR, _operators.EmptyOperator) and not issubclass(
+            self.OPERATOR, _operators.Probe
+        ):
+            # the operator does not act on the state (Wait, Offset, ...): nothing to differentiate
+            return self.OPERATOR(*args, **kwargs)
         if not issubclass(self.OPERATOR, _operators.DiffOperator):
             # a derivative with respect to a variable of an operator that cannot be differentiated would silently
             # miss this operator's contribution
